@@ -9,7 +9,7 @@ RULE = ("op histories over 1-6 resources: entries (default chain with isolation 
         "table: node/no-op/panicking prepare slots, nil/pass/block/panicking rule slots, stat.DefaultSlot and recording slots), "
         "inbound/outbound, batch in {0,1,2,3,small,2^32-1}, 0-3 args incl. unhashable, nested and interleaved; TraceError (nil and "
         "non-nil), Exit with/without error, double exits, late Exit(WithError)/TraceError on exited ids after other entries reused "
-        "the pooled context, ops on blocked ids; time steps from {0,1,499,500,501,999,1000,1001,9999,10000,10001,>array}; reads of "
+        "the pooled context, ops on blocked ids; multi-goroutine soaks (2-8 goroutines x 10-120 Entry/Trace/Exit rounds, GOMAXPROCS 8) whose final account is compared; time steps from {0,1,499,500,501,999,1000,1001,9999,10000,10001,>array}; reads of "
         "every counter (1 s and 10 s views), gauge, peak concurrency, min RT, ctx.Err/Args of live entries, recording-slot logs. "
         "non-trivial = at least one pass, one block, one completion, one late op on an exited id and one non-zero read; distinct by "
         "(rules, op-kind/chain/outcome sequence)")
@@ -63,6 +63,7 @@ def gen_case(rng, cid):
             ops.append(f"rule hot {r}")
             hot.add(r)
     live, done, blocked = [], [], []
+    used = []
     nid = 0
     late = []         # (countdown, op) scheduled late ops on exited ids
     nops = rng.randint(15, 90)
@@ -86,6 +87,8 @@ def gen_case(rng, cid):
             chain = gen_chain(rng, panicky)
             args = gen_args(rng, res in hot, panicky)
             ops.append(f"entry {nid} {res} {rng.choice(['in', 'out'])} {batch} {chain} {len(args)}" + "".join(" " + a for a in args))
+            if res not in used:
+                used.append(res)
             live.append(nid)   # may in fact be blocked: ops on blocked ids are part of the domain
             if rng.random() < 0.3:
                 ops.append(f"ctx {nid} {rng.choice(['err', 'args'])}")
@@ -108,8 +111,15 @@ def gen_case(rng, cid):
                     late.append((rng.randint(1, 3), f"exit {i}"))
             elif done:
                 ops.append(f"exit {rng.choice(done)}" + (f" {rng.choice(ERRS)}" if rng.random() < 0.6 else ""))
+        elif r < 0.695 and rng.random() < 0.25:
+            # many goroutines at one instant on their own resources; the final account must be the sequential ledger's
+            R = rng.choice([1, 2, 3])
+            ops.append(f"soak {rng.choice([2, 4, 8])} {rng.choice([10, 40, 120])} {R} {rng.randint(0, 10 ** 6)}")
+            for j in range(R):
+                if f"s{j}" not in used:
+                    used.append(f"s{j}")
         elif r < 0.93:
-            key = rng.choice(ress + ["__inbound__"]) if rng.random() < 0.9 else "nosuch"
+            key = rng.choice((used or ress) + ["__inbound__"]) if rng.random() < 0.93 else rng.choice(ress + ["nosuch"])
             g = rng.choice(["sum", "sum", "sum10", "conc", "conc", "maxconc", "minrt"])
             if g in ("sum", "sum10"):
                 ops.append(f"read {key} {g} {rng.choice(EVS)}")
@@ -124,7 +134,7 @@ def gen_case(rng, cid):
     if rng.random() < 0.6:
         for i in live:
             ops.append(f"exit {i}")
-        for r in ress + ["__inbound__"]:
+        for r in used + ["__inbound__"]:
             ops.append(f"read {r} conc")
         ops.append("reclog")
     return Case(cid, ops, tags=(f"res={nres}", "panicky" if panicky else "plain"))
@@ -194,6 +204,8 @@ def nontrivial(case, impl):
                 nz += 1
         elif t[0] == "clock":
             kinds.append("c")
+        elif t[0] == "soak":
+            kinds.append("S" + t[1])
     if npass and nblock and late and nz and compl:
         return hash((tuple(o for o in case.ops if o.startswith("rule")), tuple(kinds)))
     return None
